@@ -1,6 +1,7 @@
 """C10 — authoritative answers (RFC 1034 4.3.2): control skeleton only - delegation walk before data lookup, CNAME chase bounded
 and loop-checked, NameExists/NXDOMAIN/REFUSED decision, AA/SOA/NSEC attachment, referral classification, wildcard climb."""
 import re
+import argnames
 import helpers
 from api import shorten
 
@@ -178,3 +179,8 @@ def run(cx):
 
     # ---------------------------------------------------------------- H helper semantics the guards above rely on (rules/helpers.py)
     helpers.check(cx, 'C10.H', ['LowerName::zone_of', 'LowerName::base_name', 'LowerName::is_wildcard', 'LowerName::into_wildcard', 'LowerName::is_root', 'RecordTypeSet::contains'])
+
+    # ---------------------------------------------------------------- N1 argument names agree with the parameters they are bound to (engine/argnames.py)
+    argnames.check(cx, 'C10.N1', r'hickory_server::store::in_memory|hickory_server::zone_handler::catalog', floor=130)
+    argnames.check_fields(cx, 'C10.N1', r'hickory_server::store::in_memory|hickory_server::zone_handler::catalog', floor=6)
+
